@@ -250,7 +250,8 @@ pub fn normal_is_zero(m: Metric, bytes: &[u8]) -> bool {
 }
 
 /// Margin of an item against a plane, as (sign class, decided?) computed in f64 with a guard band.
-/// Returns 1 = Left (negative), 2 = Right (positive), 0 = undecided.
+/// Returns 1 = Left (negative), 2 = Right (positive), 0 = undecided (within the rounding guard band),
+/// 3 = non-finite (NaN / infinite / overflow-prone products).
 pub fn margin_side(m: Metric, normal: &[u8], item_vec: &[u8]) -> u8 {
     if m.is_bq() {
         // dot_product_binary_quantized: over all stored bits (padding included): agreements - disagreements
@@ -286,8 +287,9 @@ pub fn margin_side(m: Metric, normal: &[u8], item_vec: &[u8]) -> u8 {
             mag += (x * y).abs();
         }
         if !sum.is_finite() || !mag.is_finite() || mag > (f32::MAX as f64) / 4.0 {
-            // f32 partial sums may overflow: the sign arroy sees is not determined by the f64 sum
-            return 0;
+            // f32 partial sums may overflow or be NaN: the sign arroy sees is not determined by the f64 sum,
+            // and a NaN margin disorders the search queue (class 3 = "non-finite")
+            return 3;
         }
         // worst-case f32 summation error (any order, FMA or not): (n + 2) * 2^-23 * sum |x_i y_i|, doubled
         // for slack, plus the absolute error of products that underflow in f32 (2^-149 each).
